@@ -82,7 +82,7 @@ func init() {
 				if err != nil {
 					continue
 				}
-				c2, err := x509.ParseCertificate(der2)
+				c2, err := safeParseCert(der2)
 				if err != nil {
 					out.Count("permuted_rejected", 1)
 					continue
@@ -145,7 +145,7 @@ func init() {
 			base := statusVector(cc.Cert)
 			for _, pf := range []func(int) []int{reverse, randPerm} {
 				if der2, n, err := permuteGeneralNames(cc.DER, oidSAN, pf); err == nil && n > 1 {
-					if c2, err := x509.ParseCertificate(der2); err == nil {
+					if c2, err := safeParseCert(der2); err == nil {
 						// re-ordering invalidates the signature; the parser derives SelfSigned (and from it the validation level)
 						// from the signature check, which is not an effect of the order: carry the original values over
 						c2.SelfSigned, c2.ValidationLevel = cc.Cert.SelfSigned, cc.Cert.ValidationLevel
@@ -154,7 +154,7 @@ func init() {
 					}
 				}
 				if der2, n, dup, err := permuteExtensions(cc.DER, pf); err == nil && n > 1 && !dup {
-					if c2, err := x509.ParseCertificate(der2); err == nil {
+					if c2, err := safeParseCert(der2); err == nil {
 						c2.SelfSigned, c2.ValidationLevel = cc.Cert.SelfSigned, cc.Cert.ValidationLevel
 						extPerms++
 						compare("extensions", cc.File, base, statusVector(c2), map[string]interface{}{"file": cc.File, "der_permuted": hexs(der2)})
